@@ -174,10 +174,12 @@ func genCursorCase(withFaults bool) *rapid.Generator[CursorCase] {
 		if chance(t, "itergate", 20) {
 			c.IterGate = rapid.IntRange(0, 3).Draw(t, "iteryield")
 		}
-		if withFaults && chance(t, "bigregion", 6) {
+		if withFaults && chance(t, "bigregion", 10) {
 			// multi-chunk block filter region with a failure on a later chunk read
 			c.World = CursorWorldSpec{Files: 1, Blocks: 6, Rows: 10, Big: true}
-			c.Query = "token"
+			// "only00" rules out five of the six blocks: blocks pruned in an earlier
+			// chunk and a failure in a later one
+			c.Query = pick(t, "bigquery", []string{"token", "only00", "only00"})
 			c.IterGate = -1
 			c.LatencyUs = 0
 			c.Faults = []CursorFault{{Kind: pick(t, "bigfault", []string{"Read", "Read", "Corrupt", "Seek"}), N: rapid.IntRange(0, 5).Draw(t, "bign")}}
